@@ -99,7 +99,12 @@ template <class A> static Verdict norm_once(const std::string &text, const MUri 
     return Verdict::fail(std::string(b) + "'" + esc(text) + "' -> '" + esc(t1) + "' -> '" + esc(t2) + "': applying it twice differs from once", classify(in, mask, true, t2));
   }
   *out = t1;
-  // release and ledger
+  // release through the manager the URI was built with: every block must be one of its own, none may stay behind
+  if (useMm) {
+    A::FreeUriMembersMm(&u, m);
+    VF_REQUIRE(mm.bad_free == 0, "%s: mask %u: releasing the normalised URI handed the manager a block it never returned: %s", A::name(), mask, mm.bad_free_what.c_str());
+    VF_REQUIRE(mm.outstanding() == 0, "%s: mask %u: %zu block(s) of the manager outstanding after the URI was released", A::name(), mask, mm.outstanding());
+  }
   return Verdict::pass();
 }
 
